@@ -116,6 +116,10 @@ func codecBytes(c codecCase, j, r int) map[string]any {
 	switch c.Digest {
 	case "keyproto":
 		digest, _ = crypto.MarshalPublicKey(k.GetPublic())
+	case "keyprotoAlt":
+		// the same key with the two protobuf fields in reverse order (data first, then key type): parses to the same key
+		raw, _ := k.GetPublic().Raw()
+		digest = append(append([]byte{0x12, byte(len(raw))}, raw...), 0x08, byte(crypto.KeyType_Ed25519))
 	case "wrongtype":
 		raw, _ := k.GetPublic().Raw()
 		digest, _ = (&crypto.PublicKey{KeyType: crypto.KeyType(99), Data: raw}).MarshalVT()
@@ -200,7 +204,11 @@ func codecBytes(c codecCase, j, r int) map[string]any {
 			}
 		}
 	}
-	return map[string]any{"parse": parse, "extract": extract}
+	matches := false
+	if err == nil {
+		matches = id.MatchesPublicKey(k.GetPublic()) || id.MatchesPrivateKey(k)
+	}
+	return map[string]any{"parse": parse, "extract": extract, "matches": matches}
 }
 
 func classify[K interface{ Equals(crypto.Key) bool }](k K, isNil bool, err error, orig crypto.Key) string {
